@@ -402,7 +402,17 @@ pub fn run(ctx: &Ctx) -> Report {
     }
     let show = Cmd::new(&ctx.imdl, &["torrent", "show", "--json", "--input", "o.torrent"]).cwd(&sb.root).run();
     let nodes: Vec<String> = serde_json::from_str::<serde_json::Value>(&show.stdout_s()).ok().and_then(|v| v.get("dht_nodes").and_then(|n| n.as_array()).map(|a| a.iter().filter_map(|x| x.as_str().map(|s| s.to_string())).collect())).unwrap_or_default();
-    let link = Cmd::new(&ctx.imdl, &["torrent", "link", "--input", "o.torrent", "--peer", text]).cwd(&sb.root).run();
+    // (now and then a second peer on the same host, at the next port: two values, two `x.pe`)
+    let same_host_next_port: Option<(String, String)> = match (text.rsplit_once(':'), want.rsplit_once(':')) {
+      (Some((th, tp)), Some((wh, wp))) if tp == wp && fnv_str(text) % 3 == 0 => tp.parse::<u16>().ok().map(|p| if p == 65535 { 1 } else { p + 1 }).map(|p2| (format!("{th}:{p2}"), format!("{wh}:{p2}"))),
+      _ => None,
+    };
+    let mut link_args = vec!["torrent", "link", "--input", "o.torrent", "--peer", text];
+    if let Some((t2, _)) = &same_host_next_port {
+      link_args.extend(["--peer", t2.as_str()]);
+      report.hit("cli:two-peers-on-one-host");
+    }
+    let link = Cmd::new(&ctx.imdl, &link_args).cwd(&sb.root).run();
     // read the printed link the way any URI consumer does: split the query at `&`, each pair at its first `=`,
     // percent-decode; in both conventions for `+`
     let link_text = link.stdout_s();
@@ -427,7 +437,11 @@ pub fn run(ctx: &Ctx) -> Report {
     let mut bad = None;
     for plus_space in [false, true] {
       let pe: Vec<String> = query.split('&').filter_map(|kv| kv.split_once('=')).filter(|(k, _)| decode(k, plus_space) == "x.pe").map(|(_, v)| decode(v, plus_space)).collect();
-      if pe != vec![want.clone()] {
+      let mut want_pe = vec![want.clone()];
+      if let Some((_, w2)) = &same_host_next_port {
+        want_pe.push(w2.clone());
+      }
+      if pe != want_pe {
         bad = Some(format!("link `{}` read with `+` as {}: x.pe = {pe:?}", link_text.trim(), if plus_space { "space" } else { "itself" }));
       }
     }
